@@ -292,6 +292,65 @@ Definition srun (t : xds_type) (s : sstate) (ls : list slabel) : sstate :=
    earlier stream (reconnect) *)
 Definition sinit (st0 : watched) (cn0 : N) : sstate := mkS st0 [] [] [] cn0 false false.
 
+(* counters of the closed-loop no-loop theorem: answers to requests vs external causes *)
+Definition armed_t (st : watched) (t : xds_type) : nat :=
+  match st t with Some w => if always_respond w then 1%nat else 0%nat | None => 0%nat end.
+
+Record lcount := mkL {
+  l_ans : nat;    (* requests ShouldRespond decided to answer *)
+  l_csub : nat;   (* client (re)subscriptions: first requests, reconnects, subscription changes *)
+  l_push : nat;   (* server pushes of type t *)
+  l_forc : nat    (* steps of other types that armed AlwaysRespond on t (CDS (re)initialisation for EDS) *)
+}.
+Definition lzero : lcount := mkL 0 0 0 0.
+
+Definition lcount_step (t : xds_type) (s : sstate) (l : slabel) (c : lcount) : lcount :=
+  match l with
+  | CSub _ => mkL (l_ans c) (1 + l_csub c) (l_push c) (l_forc c)
+  | CRecv _ => c
+  | SProc n _ =>
+    match s_c2s s with
+    | [] => c
+    | r :: _ =>
+      if n =? 0 then c
+      else mkL (l_ans c + responded (fst (should_respond (s_srv s) r))) (l_csub c) (l_push c) (l_forc c)
+    end
+  | SPush n =>
+    if n =? 0 then c else
+    match s_srv s t with
+    | None => c
+    | Some _ => mkL (l_ans c) (l_csub c) (1 + l_push c) (l_forc c)
+    end
+  | SOther _ =>
+    mkL (l_ans c) (l_csub c) (l_push c)
+        (l_forc c + (armed_t (s_srv (sstep t s l)) t - armed_t (s_srv s) t))
+  end.
+
+Fixpoint lrun (t : xds_type) (s : sstate) (ls : list slabel) (c : lcount) : sstate * lcount :=
+  match ls with
+  | [] => (s, c)
+  | l :: ls' => lrun t (sstep t s l) ls' (lcount_step t s l c)
+  end.
+
+(* a label that does something in state s *)
+Definition s_enabled (s : sstate) (l : slabel) : bool :=
+  match l with
+  | CRecv _ => negb (is_nil (s_s2c s))
+  | SProc n _ => negb (is_nil (s_c2s s)) && negb (n =? 0)
+  | _ => true
+  end.
+
+(* no external cause: only request processing and client receives *)
+Definition internal_label (l : slabel) : bool :=
+  match l with CRecv _ | SProc _ _ => true | _ => false end.
+
+(* number of labels of an internal schedule that actually fire *)
+Fixpoint fired (t : xds_type) (s : sstate) (ls : list slabel) : nat :=
+  match ls with
+  | [] => 0%nat
+  | l :: ls' => ((if s_enabled s l then 1 else 0) + fired t (sstep t s l) ls')%nat
+  end.
+
 (* ------------------------------------------------------------------ 3b. delta closed loop *)
 
 (* The client's subscription is a plain list used as a set.  DChange = spontaneous request
@@ -374,6 +433,45 @@ Definition drun (t : xds_type) (s : dstate) (ls : list dlabel) : dstate :=
   fold_left (dstep t) ls s.
 
 Definition dinit (st0 : watched) (cn0 : N) : dstate := mkD st0 [] [] [] cn0 false true.
+
+(* counters of the delta closed-loop no-loop theorem.  A client request counts as an external cause
+   when it is spontaneous (empty nonce: first request, reconnect, subscription change) or carries
+   changes piggybacked on an ACK; plain ACKs/NACKs do not count. *)
+Definition d_counted (r : dreq) : nat :=
+  if (d_nonce r =? 0) || carries_changes r then 1%nat else 0%nat.
+
+Record dcount := mkDC { dc_ans : nat; dc_req : nat; dc_push : nat; dc_forc : nat }.
+Definition dczero : dcount := mkDC 0 0 0 0.
+
+Definition dcount_step (t : xds_type) (s : dstate) (l : dlabel) (c : dcount) : dcount :=
+  match l with
+  | DChange _ _ _ => mkDC (dc_ans c) (1 + dc_req c) (dc_push c) (dc_forc c)
+  | DRecv e subs unsubs =>
+    match x_s2c s with
+    | [] => c
+    | n :: _ => mkDC (dc_ans c) (dc_req c + d_counted (mkDReq t subs unsubs [] n e)) (dc_push c) (dc_forc c)
+    end
+  | DProc _ _ _ =>
+    match x_c2s s with
+    | [] => c
+    | r :: _ =>
+      mkDC (dc_ans c + responded (fst (should_respond_delta (x_srv s) r))) (dc_req c) (dc_push c) (dc_forc c)
+    end
+  | DPush _ _ =>
+    match x_srv s t with
+    | None => c
+    | Some _ => mkDC (dc_ans c) (dc_req c) (1 + dc_push c) (dc_forc c)
+    end
+  | DOther _ =>
+    mkDC (dc_ans c) (dc_req c) (dc_push c)
+         (dc_forc c + (armed_t (x_srv (dstep t s l)) t - armed_t (x_srv s) t))
+  end.
+
+Fixpoint dlrun (t : xds_type) (s : dstate) (ls : list dlabel) (c : dcount) : dstate * dcount :=
+  match ls with
+  | [] => (s, c)
+  | l :: ls' => dlrun t (dstep t s l) ls' (dcount_step t s l c)
+  end.
 
 (* first client class: changes only in spontaneous requests *)
 Definition class1_label (l : dlabel) : bool :=
